@@ -461,6 +461,8 @@ def correspond(ctx):
             sh_, b = shrink(hs[i])
             out.append({'history': sh_, 'first_bad_step': b})
         res['first_disagreement'] = out
+    # Segment.clone / Segment.round as regenerated from the source (equal to the heap model's seg_clone / seg_rounded by Proofs/Bridge.v)
+    kernels.merge_cross_check(res, 'C07', ['Line_clone', 'Quad_clone', 'Cubic_clone', 'Line_round', 'Quad_round', 'Cubic_round'], ctx.n(20, 300), rng)
     return res
 
 
